@@ -30,7 +30,8 @@ class Run:
         return {"rc": self.rc, "stderr": self.err_text[-400:], "stdout_len": len(self.out), "timed_out": self.timed_out}
 
 
-def kestrel(args, env=None, stdin=b"", timeout=60, cwd=None, stdout_path=None, stdin_path=None, raw_env=None, setsid=False):
+def kestrel(args, env=None, stdin=b"", timeout=60, cwd=None, stdout_path=None, stdin_path=None, raw_env=None, setsid=False,
+            stdout_closed=False):
     """Run the CLI with a clean environment.  stdin is a pipe (never a terminal).  raw_env: further variables given as
     bytes (values that are not UTF-8); setsid: in a session of its own, i.e. without a controlling terminal."""
     e = {"PATH": "/usr/bin:/bin", "HOME": "/nonexistent", "LANG": "C.UTF-8"}
@@ -41,6 +42,11 @@ def kestrel(args, env=None, stdin=b"", timeout=60, cwd=None, stdout_path=None, s
         e.update(raw_env)
     fin = open(stdin_path, "rb") if stdin_path else None
     fout = open(stdout_path, "wb") if stdout_path else None
+    if stdout_closed:
+        # a pipe whose reading end is already closed: every write fails with EPIPE (Rust ignores SIGPIPE)
+        rfd, wfd = os.pipe()
+        os.close(rfd)
+        fout = os.fdopen(wfd, "wb")
     try:
         p = subprocess.run([KESTREL] + list(args), input=None if fin else stdin, stdin=fin,
                            stdout=fout if fout else subprocess.PIPE, stderr=subprocess.PIPE,
